@@ -103,8 +103,12 @@ fn run_history(tracer: &Tracer, cfg: &Cfg, ops: &[Value], storage: bool, tag: &V
     tracer.emit(json!({"ev":"end","listing":w.dir.listing(),"locks":w.dir.lock_files(),"managed":w.managed()}));
 }
 
-fn gen_history(rng: &mut StdRng, nops: usize, delete_all: bool, avoid_f0: bool, terms: &[&str], terms_only: bool) -> Vec<Value> {
+fn gen_history(rng: &mut StdRng, nops: usize, delete_all: bool, avoid_f0: bool, terms: &[&str], terms_only: bool, two: bool) -> Vec<Value> {
     let mut ops = vec![];
+    if two {
+        // a second Index instance opened before anything is written: writers alternate between the two
+        ops.push(json!({"op":"open_second"}));
+    }
     let mut next_id = 1u64;
     // pending = operations issued since the last commit/rollback/new writer (for steering)
     let mut pending_ops = 0usize;
@@ -177,8 +181,11 @@ fn gen_history(rng: &mut StdRng, nops: usize, delete_all: bool, avoid_f0: bool, 
             } else {
                 ops.push(json!({"op":"merge"}));
             }
-        } else if x < 94 {
+        } else if x < 94 || (two && x < 97) {
             ops.push(json!({"op":"drop_writer"}));
+            if two && rng.random_bool(0.7) {
+                ops.push(json!({"op":"switch_index"}));
+            }
             open = false;
         } else if x < 96 {
             ops.push(json!({"op":"gc"}));
@@ -450,7 +457,7 @@ fn main() {
                 cfg.merge = if mp == "mix" { pick(&mut rng, &["none", "none", "log", "any2", "lazy2"]).to_string() } else { mp };
                 let so = a.get("sorted", "");
                 cfg.sorted = if so == "mix" { pick(&mut rng, &["", "", "v_asc", "v_desc"]).to_string() } else { so };
-                let ops = gen_history(&mut rng, nops, a.flag("delete-all"), avoid.contains("f0"), &["a", "b", "c"], a.flag("term-deletes"));
+                let ops = gen_history(&mut rng, nops, a.flag("delete-all"), avoid.contains("f0"), &["a", "b", "c"], a.flag("term-deletes"), a.flag("two"));
                 run_history(&tracer, &cfg, &ops, storage, &json!({"seed":seed,"run":r}));
             }
         }
